@@ -57,9 +57,11 @@ class Inconclusive(Exception):
 _built = {}
 
 
-def _cargo(args, cwd, what, target=None):
+def _cargo(args, cwd, what, target=None, extra_env=None):
     t = time.time()
     env = dict(ENV)
+    if extra_env:
+        env.update(extra_env)
     if target is not None:
         env["CARGO_TARGET_DIR"] = str(target)
     r = run(["cargo"] + args, cwd=str(cwd), env=env)
@@ -88,11 +90,29 @@ def build_probe(profile="dev") -> Path:
     """(Re)builds vprobe against /repo's current working tree (cargo decides what is stale)."""
     key = ("probe", profile)
     if key not in _built:
+        if profile == "asan":
+            # AddressSanitizer build (nightly): every dependency is rebuilt with the same flags
+            t = CACHE / "target-asan"
+            _cargo(["+nightly", "build", "--offline", "--release", "--target", "x86_64-unknown-linux-gnu"], probe_crate(), "vprobe[asan]", target=t,
+                   extra_env={"RUSTFLAGS": "-Zsanitizer=address -Cforce-frame-pointers=yes"})
+            _built[key] = t / "x86_64-unknown-linux-gnu" / "release" / "vprobe"
+            return _built[key]
         args = ["build", "--offline"]
         if profile == "release":
             args.append("--release")
         _cargo(args, probe_crate(), f"vprobe[{profile}]")
         _built[key] = TARGET / ("release" if profile == "release" else "debug") / "vprobe"
+    return _built[key]
+
+
+def build_ls_tsan() -> Path:
+    """lelwel-ls under ThreadSanitizer (nightly, -Zbuild-std so that std is instrumented as well)"""
+    key = ("ls", "tsan")
+    if key not in _built:
+        t = CACHE / "target-tsan"
+        _cargo(["+nightly", "build", "--offline", "-Zbuild-std", "--target", "x86_64-unknown-linux-gnu", "--manifest-path", str(REPO / "Cargo.toml"),
+                "--features", "lsp", "--bin", "lelwel-ls"], REPO, "lelwel-ls[tsan]", target=t, extra_env={"RUSTFLAGS": "-Zsanitizer=thread"})
+        _built[key] = t / "x86_64-unknown-linux-gnu" / "debug" / "lelwel-ls"
     return _built[key]
 
 
